@@ -555,6 +555,12 @@ func isoClasses() []isoClass {
 			strings.NewReplacer(`<mj-text css-class="ka">`, `<mj-text css-class="ka" padding="10px 20px" font-family="Lato, Ubuntu">`, `<mj-divider/>`, `<mj-divider border-width="2px" width="50%"/>`).Replace(doc(""))},
 		{"class-case", strings.NewReplacer(`css-class="ka"`, `css-class="Ka"`, `class="kb"`, `class="KB"`).Replace(doc(`<mj-head><mj-style inline="inline">.ka { color: #123456; } .kb { color: #ff0000; }</mj-style></mj-head>`)),
 			doc(`<mj-head><mj-style inline="inline">.ka { color: #123456; } .kb { color: #ff0000; }</mj-style></mj-head>`)},
+		// font stacks that begin alike and name another web font further on (or none): whatever a compilation remembers about a
+		// stack must be about the whole stack
+		{"font-stack-lead", strings.NewReplacer(`<mj-text css-class="ka">`, `<mj-text css-class="ka" font-family="Arial, Roboto, sans-serif">`, `<mj-button mj-class="m1"`, `<mj-button mj-class="m1" font-family="Helvetica, Montserrat"`).Replace(doc("")),
+			strings.NewReplacer(`<mj-text css-class="ka">`, `<mj-text css-class="ka" font-family="Arial, Lato, sans-serif">`, `<mj-button mj-class="m1"`, `<mj-button mj-class="m1" font-family="Helvetica, sans-serif"`).Replace(doc(""))},
+		{"font-stack-tail", strings.NewReplacer(`<mj-text css-class="ka">`, `<mj-text css-class="ka" font-family="Roboto, Arial">`).Replace(doc("")),
+			strings.NewReplacer(`<mj-text css-class="ka">`, `<mj-text css-class="ka" font-family="Roboto, Open Sans, Arial">`).Replace(doc(""))},
 		{"group-columns", `<mjml><mj-body><mj-section><mj-group><mj-column><mj-text>a</mj-text></mj-column><mj-column><mj-text>b</mj-text></mj-column></mj-group></mj-section></mj-body></mjml>`,
 			`<mjml><mj-body><mj-section><mj-column width="33%"><mj-text>a</mj-text></mj-column><mj-column width="67%"><mj-image src="x.png"/></mj-column></mj-section><mj-hero><mj-text>h</mj-text></mj-hero></mj-body></mjml>`},
 	}
